@@ -24,7 +24,7 @@ type Mutation { m(x: Int!): Int }
 type G implements I { x: Int  nn: Int!  g: G  s: String }
 interface I { x: Int }
 union U = G
-input In { a: Int! = 1  b: [String]  c: In }
+input In { a: Int! = 1  b: [String]  c: In  abc: Int  medium: Int  greenish: Int }
 enum Color { RED GREEN }
 """
 
@@ -194,6 +194,7 @@ VARIABLES = [None, {}, {"v": "s"}, {"v": 1}, {"v": None}, {"x": 1}, {"x": "1"}, 
              {"extra": object()}, {"v": b"bytes"}, {"v": ["a"]}, {"o": {"b": "single"}}, {"i": 10 ** 400}]
 
 OP_NAMES = [None, "Q", "A", "B", "Nope", "", "M"]
+VAR_SOURCES = [x for x in SOURCES if "($" in x or "( $" in x]
 
 # keys whose case mappings change their length, empty / long / non-identifier keys
 ODD_KEYS = ["\u0130\u0130\u0130", "a\u0130", "\u00df", "\u0149a", "A", "", "a" * 300, "a b", "\ud800", "\x00", "__proto__", "c ", "B", "\u01f0\u01f0"]
@@ -265,6 +266,8 @@ def gen_variables(rng):
     out = {}
     for n in rng.sample(names, rng.randint(1, 3)):
         out[n] = value_palette(rng)
+        if n == "o" and rng.random() < 0.6:        # an input object: mostly mappings, with odd keys
+            out[n] = {rng.choice(["a", "b", "c", "zzz", 1, None, 1.5] + ODD_KEYS): value_palette(rng, 2) for _ in range(rng.randint(1, 3))}
     if rng.random() < 0.1:
         out[rng.choice(ODD_KEYS + [1, None])] = 1
     return out
@@ -457,10 +460,11 @@ Check == LET c == Cases[i] IN (c.accepted => Lex(c.s).ok) \/ PrintT(ToJson([viol
             vd.note_drift("parse entry point accepted a source Lexical.tla rejects", sample_recs[o["viol"] - 1][:2])
         ev.traces += len(cases)
     # ---- V-b
-    n = 1500 if tier == "quick" else 15000
+    n = 4000 if tier == "quick" else 40000
     cases = []
     for k in range(n):
-        cases.append((seed() * 1000003 + k, rng.choice(SOURCES), rng.choice(VARIABLES) if k % 2 else ("gen", seed() * 7919 + k), rng.choice(OP_NAMES),
+        gen = k % 2 == 0
+        cases.append((seed() * 1000003 + k, rng.choice(VAR_SOURCES if gen and k % 8 else SOURCES), ("gen", seed() * 7919 + k) if gen else rng.choice(VARIABLES), rng.choice(OP_NAMES),
                       rng.choice(["sync", "sync", "async"]), rng.random() < 0.05))
     vrecs = []
     for out, recs in pmap(_vb_chunk, cases, chunk=50):
